@@ -313,7 +313,9 @@ class Timing:
     def __init__(self, seconds):
         self.seconds = seconds                 # configured `iauth { timeout <seconds> }`
         self.tau = seconds / 2.5
-        self.w = 0.18 * self.tau               # a burst must be acknowledged within this much of its window's start
+        # a burst must be sent and acknowledged within this much of its window's start; deadlines fall 0.5 tau after
+        # a window's start at the earliest, so 0.2 tau of margin remains on either side
+        self.w = 0.3 * self.tau
 
 
 def _names(m, i, hexid):
@@ -322,7 +324,7 @@ def _names(m, i, hexid):
     return m.get("id") == i
 
 
-def rt_run(build, workdir, svcs, timing, history, eof_wait=True):
+def rt_run(build, workdir, svcs, timing, history):
     """One timed history on one fresh daemon.  Returns (records, ok, why): ok = False when the wall-clock
     schedule could not be kept (the records are then not evidence of anything)."""
     os.makedirs(workdir, exist_ok=True)
@@ -415,12 +417,15 @@ def rt_run(build, workdir, svcs, timing, history, eof_wait=True):
     return recs, ok, why
 
 
-def to_timed(steps, wait_out=True, cleanup=True, late_replace=False):
+def to_timed(steps, wait_out=True, cleanup=True, late_replace=False, probe_hurry=False):
     """Single-client behaviour of MCBook (list of {e, o, n}: event, predicted output) -> timed history.
     A re-announcement of a live client is preceded by one tick, or with late_replace by two (the replacement then
     happens half a tick before the old instance's deadline), so the two instances have different deadlines;
     TO = ticks up to the current instance's deadline; at the end (optionally) the client is withdrawn and the clock
-    runs past every deadline ever set, so that the timer of every finished request had its chance to fire."""
+    runs past every deadline ever set, so that the timer of every finished request had its chance to fire.
+    probe_hurry: a client still pending at the end is hurried (data complete, so its queries go out and only they or the
+    timer stand between it and the verdict) before the clock runs on: a timer firing for it at the wrong moment, e.g. at
+    the deadline of the instance it replaced, then shows as an acceptance in a tick in which nothing is due."""
     out = []
     k = 0
     live = False
@@ -462,6 +467,8 @@ def to_timed(steps, wait_out=True, cleanup=True, late_replace=False):
     if cleanup and cid is not None:
         out.append({"e": "D", "id": cid})
         live = False
+    elif probe_hurry and live:
+        out.append({"e": "H", "id": cid})       # may be accepted right away or stay pending: both are fine below
     if wait_out and last_ann is not None:
         while k < last_ann + 3:
             k += 1
@@ -489,7 +496,7 @@ def long_to_timed(steps, wait_out=True):
     return out
 
 
-def rt_replay(ctx, histories, svcs, timing, tag="rt", nthreads=64, eof_wait=True, retries=2):
+def rt_replay(ctx, histories, svcs, timing, tag="rt", nthreads=64, retries=2):
     """Run timed histories concurrently (one daemon each, mostly asleep); a history whose schedule could not be kept is
     retried; returns (trace path, lines, index [hi, si], stats)."""
     b = ctx.build
@@ -511,20 +518,26 @@ def rt_replay(ctx, histories, svcs, timing, tag="rt", nthreads=64, eof_wait=True
 
     with ThreadPoolExecutor(max(1, min(nthreads, len(histories)))) as ex:
         list(ex.map(one, range(len(histories))))
-    path = os.path.join(ctx.scratch, "%s-trace.ndjson" % tag)
+    out = {"trace": os.path.join(ctx.scratch, "%s-trace.ndjson" % tag), "late_attempts": late[0], "records": results}
+    rt_rewrite(out)
+    return out
+
+
+def rt_rewrite(out):
+    """(Re)write the trace file of a real-timer run from out["records"] (None = schedule not kept, left out)."""
     index = []
     n = 0
-    with open(path, "w") as f:
-        for hi, recs in enumerate(results):
+    with open(out["trace"], "w") as f:
+        for hi, recs in enumerate(out["records"]):
             if recs is None:
                 continue
             for si, r in enumerate(recs):
                 f.write(json.dumps(r, separators=(",", ":")) + "\n")
                 index.append([hi, si])
                 n += 1
-    inconclusive = [hi for hi, r in enumerate(results) if r is None]
-    return {"trace": path, "lines": n, "index": index, "late_attempts": late[0], "inconclusive": inconclusive,
-            "records": results}
+    out["lines"] = n
+    out["index"] = index
+    out["inconclusive"] = [hi for hi, r in enumerate(out["records"]) if r is None]
 
 
 # ---- validation ---------------------------------------------------------------------------------------------
@@ -560,24 +573,7 @@ def trace_line(path, l):
     return R.trace_line(path, l)
 
 
-# ---- second opinions ------------------------------------------------------------------------------------------
-def hook_single(ctx, events, svcs, timeout_on, leave_live, tag="again"):
-    """One behaviour on a fresh daemon (cleanup unless leave_live), validated; returns (viol conjunct sets by step, eof set, records)."""
-    sub = os.path.join(ctx.scratch, "%s-%d" % (tag, int(time.time() * 1e6) % 10**9))
-    res = _hook_worker((ctx.build.root, ctx.build.moddir, ctx.build.daemon, sub, svcs, timeout_on, [(0, events, [])],
-                        os.path.join(sub, "t.ndjson"), {"per_proc": 1, "live_every": 1 if leave_live else 10**9}))
-    v, dr, ld, gd = validate(ctx, res["trace"], res["lines"])
-    recs = [json.loads(x) for x in open(res["trace"])]
-    with open(res["trace"] + ".idx") as f:
-        idx = json.load(f)["index"]
-    shutil.rmtree(sub, ignore_errors=True)
-    found = []
-    for x in v:
-        bi, si, pn = idx[x["l"] - 1]
-        found.append({"conjuncts": sorted(x["v"]), "si": si, "rec": recs[x["l"] - 1]})
-    return found, recs
-
-
+# ---- helpers for reports ------------------------------------------------------------------------------------
 def san_kind(text):
     m = re.search(r"ERROR: (AddressSanitizer|LeakSanitizer): ([a-z\-A-Z ]+)", text or "")
     if not m:
